@@ -27,10 +27,11 @@ def _is_supp(o):
     return m == 'supp' or m.startswith('supp.')
 
 
-def fingerprint(root, digest=True, skip_attrs=(), normalize=()):
+def fingerprint(root, digest=True, skip_attrs=(), normalize=(), opaque=()):
     ids = {}
     order = []
     out = []
+    opaque_ids = {id(x) for x in opaque}
 
     def ref(o):
         if isinstance(o, PRIMS):
@@ -40,6 +41,8 @@ def fingerprint(root, digest=True, skip_attrs=(), normalize=()):
         if isinstance(o, (types.ModuleType, types.FunctionType, types.BuiltinFunctionType, type, types.MethodType)):
             return ('x', getattr(o, '__name__', type(o).__name__))
         i = id(o)
+        if i in opaque_ids:
+            return ('opaque', type(o).__name__)
         if i not in ids:
             ids[i] = len(ids)
             order.append(o)
@@ -160,3 +163,28 @@ def bfs_levels(pool, expand, spec, init_key, max_states=20000):
             depth += 1
         frontier = nxt
     return len(seen), transitions, depth, capped, payloads
+
+
+def runtime_memo_summary(names):
+    """Which memo cells of a tree of supp RuntimeName objects are filled (their CONTENT is a function of the runtime
+    object they wrap, so the set of filled cells is the state): sorted list of dotted paths."""
+    out = []
+    stack = [('', n) for n in names.values()] if isinstance(names, dict) else []
+    seen = set()
+    while stack:
+        path, n = stack.pop()
+        if id(n) in seen:
+            continue
+        seen.add(id(n))
+        d = getattr(n, '__dict__', {})
+        cells = sorted(k for k in d if k in ('_attrs', '_instance', 'used'))
+        if cells:
+            out.append((path + '.' + str(getattr(n, 'name', '?')), tuple(cells)))
+        at = d.get('_attrs')
+        if isinstance(at, dict) and len(path) < 60:
+            for k, v in at.items():
+                stack.append((path + '.' + str(getattr(n, 'name', '?')), v))
+        inst = d.get('_instance')
+        if inst is not None:
+            stack.append((path + '.' + str(getattr(n, 'name', '?')) + '()', inst))
+    return tuple(sorted(out))
